@@ -175,7 +175,8 @@ def _asdict_anything(
         items = [
             _asdict_anything(
                 i,
-                is_key=False,
+                # Members of a key must stay hashable as well.
+                is_key=is_key,
                 filter=filter,
                 dict_factory=dict_factory,
                 retain_collection_types=retain_collection_types,
